@@ -44,3 +44,6 @@ package binary
 //@   ensures ndarray_carries_rank: isGenT(t) && typeof(dim(t)) == *dsl.Array && dim(t).(*dsl.Array) != nil && !dim(t).(*dsl.Array).IsFixed() && dim(t).(*dsl.Array).HasKnownNumberOfDimensions() ==> result == "yardl.binary.NDArraySerializer(" + scalarSer(gen(t), contextNamespace, namedType) + ", " + itoa(len(*dim(t).(*dsl.Array).Dimensions)) + ")"
 //@   ensures dynamic_ndarray: isGenT(t) && typeof(dim(t)) == *dsl.Array && dim(t).(*dsl.Array) != nil && !dim(t).(*dsl.Array).IsFixed() && !dim(t).(*dsl.Array).HasKnownNumberOfDimensions() ==> result == "yardl.binary.DynamicNDArraySerializer(" + scalarSer(gen(t), contextNamespace, namedType) + ")"
 //@   ensures map_key_then_value: isGenT(t) && typeof(dim(t)) == *dsl.Map && dim(t).(*dsl.Map) != nil ==> result == "yardl.binary.MapSerializer(" + typeSerializer(dim(t).(*dsl.Map).KeyType, contextNamespace, namedType) + ", " + typeSerializer(gen(t).ToScalar(), contextNamespace, namedType) + ")"
+
+// Output and diagnostics may not depend on the iteration order of a Go map (C12): decided per `range` over a map.
+//@ map-order C12 package
